@@ -1757,10 +1757,13 @@ func GetRouteDistinguisher(data []byte) RouteDistinguisherInterface {
 	case BGP_RD_FOUR_OCTET_AS:
 		return NewRouteDistinguisherFourOctetAS(binary.BigEndian.Uint32(data[2:6]), binary.BigEndian.Uint16(data[6:8]))
 	}
+	// keep the six value octets: an RD of a type this code does not know must still be
+	// re-advertised unchanged (dropping them would make distinct RDs collide)
 	rd := &RouteDistinguisherUnknown{
 		DefaultRouteDistinguisher: DefaultRouteDistinguisher{
 			Type: typ,
 		},
+		Value: append([]byte{}, data[2:8]...),
 	}
 	return rd
 }
